@@ -1763,15 +1763,20 @@ func (env *LEnv) call(ctx context.Context, fun *LVal, args *LVal) *LVal {
 	// bootstrapping problem, where ``set'' (as well as defun/defmacro) needs
 	// to modify the *package* namespace and not the "lisp" namespace.  Dynamic
 	// variables may be required in order to work through this completely.
+	//
+	// The caller's package is restored on every return, also when the callee
+	// is defined in the package that is already current: a callee that runs
+	// in-package must not leave the rest of its CALLER's body running in a
+	// package the caller was not defined in.
 	outer := env.Runtime.Package
+	defer func() {
+		env.Runtime.Package = outer
+	}()
 	pkg := fun.Package()
 	if outer.Name != pkg {
 		inner := env.Runtime.Registry.packages[pkg]
 		if inner != nil {
 			env.Runtime.Package = inner
-			defer func() {
-				env.Runtime.Package = outer
-			}()
 		}
 	}
 
